@@ -91,6 +91,11 @@ COMP_SHAPES = [
     ("comp/parenthesised_return", "def f(xs):\n    return ([x for x in xs if x])\n", 3),
     ("comp/multi_line", "def f(xs):\n    y = [\n        x\n        for x in xs\n        if x\n    ]\n    return y\n", 3),
     ("comp/chained_assign", "def f(xs):\n    a = b = [x for x in xs if x]\n    return a\n", 3),
+    ("comp/chained_assign3", "def f(xs):\n    a = b = c = [x for x in xs if x]\n    return a\n", 3),
+    ("comp/chained_assign4_nested_for", "def f(xs):\n    a = b = c = d = [y for x in xs for y in x if y]\n    return a\n", 4),
+    ("comp/chained_assign_parenthesised", "def f(xs):\n    a = b = ([x for x in xs if x])\n    return a\n", 3),
+    ("comp/chained_assign3_double_paren", "def f(xs):\n    a = b = c = (([x for x in xs]))\n    return a\n", 2),
+    ("comp/chained_assign3_in_branch", "def f(xs, k):\n    if k:\n        a = b = c = {x for x in xs if x}\n    else:\n        a = 0\n    return a\n", 4),
     ("comp/annotated_assign", "def f(xs):\n    a: list = [x for x in xs if x]\n    return a\n", 3),
     ("comp/augmented_assign", "def f(xs, a):\n    a += [x for x in xs if x]\n    return a\n", 3),
     ("comp/expression_statement", "def f(xs):\n    [print(x) for x in xs if x]\n    return 1\n", 3),
